@@ -3,7 +3,8 @@
 Three layers, each verified against the real source:
  (P) transit.Connection consumer accounting (connectConsumer/_writeToConsumer/disconnectConsumer/
      recordReceived/connectionLost/writeToFile, FileConsumer.*): plain methods, ghost event trace;
- (R) cmd_receive.Receiver._transfer_data/_parse_offer/_close_transit/_establish_transit/_handle_text;
+ (R) cmd_receive.Receiver._transfer_data/_parse_offer/_close_transit/_establish_transit/_handle_text, and the top
+     level Receiver._go/_get_data/_handle_code/_build_transit/_parse_transit (normal return of _go == success reported);
  (S) cmd_send.Sender._send_file/_handle_answer (file object and ZipStream), and (O) what is offered:
      Sender._build_offer/_send_data/_handle_transit.
 (R) and (S) are @inlineCallbacks generators; `yield` is given meaning by props/deferred.py.  The
@@ -659,6 +660,115 @@ S_CONTRACTS = [
 ]
 
 
+# ---- (R') what `wormhole receive` does between the welcome and the end of the transfer
+RG_SELF = dict(R_SELF, _transit_receiver="opt[obj[Transit]]", _reactor="obj[Reactor]", _tor="opt[obj[Tor]]")
+RGO_EXC = sorted(set(PO_EXC + ["TransferError", "KeyError", "TypeError", "AttributeError", "IndexError", "ValueError",
+                               "UnicodeDecodeError", "AssertionError", "WelcomeError", "WrongPasswordError", "WormholeError"])
+                 - {"RespondError"})
+GD_EXC = ["TransferError", "ValueError", "UnicodeDecodeError", "AssertionError", "WrongPasswordError", "WormholeError", "KeyError"]
+
+RG_CONTRACTS = [
+    Contract(f"{RECV}:Receiver._send_data", props=[PROP], params={"data": "json", "w": "obj[Wormhole]"}, self_fields=RG_SELF,
+             internal_ensures=[("sends-exactly-this-dict-once", "bcall_names() == ['send_message'] and "
+                                                                "bcall_arg('send_message', 0, 0) == json_bytes(data)")]),
+    Contract(f"{RECV}:Receiver._get_data", props=[PROP], params={"w": "obj[Wormhole]"}, self_fields=RG_SELF, returns="json",
+             raises={e: None for e in GD_EXC},
+             ensures=[("a-dict-without-an-error-report", "isinstance(result, dict) and not jhas(result, 'error')")],
+             internal_ensures=[("one-message-awaited", "bcall_names() == ['get_message']")],
+             note="a peer's {'error': ...} never comes back as data: TransferError"),
+    Contract(f"{RECV}:Receiver._handle_code", props=[PROP], params={"w": "obj[Wormhole]"}, self_fields=RG_SELF,
+             raises={"AssertionError": None, "WormholeError": None},
+             internal_ensures=[("exactly-one-way-of-getting-a-code-then-waits-for-it",
+                                "bcalls('set_code') + bcalls('allocate_code') + bcalls('input_code') == 1 and "
+                                "bcall_names()[-1] == 'get_code'")]),
+    Contract(f"{RECV}:Receiver._build_transit", props=[PROP], params={"w": "obj[Wormhole]", "sender_transit": "json"},
+             self_fields=RG_SELF, modifies=["_transit_receiver"], raises={"AttributeError": None, "WormholeError": None},
+             ensures=[("a-transit-receiver-exists", "self._transit_receiver is not None")],
+             internal_ensures=[("keyed-before-hints-and-our-hints-sent-back",
+                                "bcalls('set_transit_key') == 1 and bcalls('add_connection_hints') == 1 and "
+                                "ncalls('_send_data') == 1 and jhas(to_j(last_call_arg('_send_data', 1)), 'transit')")]),
+    Contract(f"{RECV}:Receiver._parse_transit", props=[PROP], params={"sender_transit": "json", "w": "obj[Wormhole]"},
+             self_fields=RG_SELF, modifies=["_transit_receiver"], raises={"AttributeError": None, "WormholeError": None},
+             ensures=[("a-transit-receiver-exists", "self._transit_receiver is not None"),
+                      ("an-existing-one-is-kept", "imp(old(self._transit_receiver) is not None, "
+                                                  "self._transit_receiver is old(self._transit_receiver))")]),
+    Contract(f"{RECV}:Receiver._go", props=[PROP], params={"w": "obj[Wormhole]"}, self_fields=RG_SELF,
+             requires=c05.CWD_OK, pre_hook=c05.bind_fs, raises={e: None for e in RGO_EXC},
+             modifies=["abs_destname", "xfersize", "_transit_receiver"] + c05.FS_FIELDS,
+             internal_ensures=[
+                 ("success-only-after-parse-offer-returned",
+                  "call_seq()[-1] == '_parse_offer' and ret_seq() == call_seq() and ncalls('_parse_offer') == 1"),
+                 ("the-offer-parsed-is-the-peers-offer", "to_j(last_call_arg('_parse_offer', 1)) == jget(them_d, 'offer')")],
+             ensures_raise={"TransferError": [
+                 ("a-refused-offer-is-reported-to-the-peer-and-nothing-else-is-done",
+                  "implies(ncalls('_parse_offer') == 1 and call_seq()[-1] != '_parse_offer', call_seq()[-1] == '_send_data' and "
+                  "call_seq()[-2] == '_parse_offer' and jhas(to_j(last_call_arg('_send_data', 1)), 'error'))")]},
+             loops={0: {"header": "True", "modifies": [("self", "_transit_receiver")],
+                        "invariant": ["ncalls('_parse_offer') == 0 and ret_seq() == call_seq()"] + c05.CWD_OK}},
+             note="normal return == `wormhole receive` reports success: only after the one _parse_offer (by its contract above) "
+                  "returned; RespondError never escapes: the peer is told, then TransferError"),
+]
+
+
+def regf_rg():
+    reg = regf_r()
+    install_offer_specs(reg)
+    reg.class_fields["Receiver"] = dict(RG_SELF)
+    reg.class_fields["Args"] = dict(reg.class_fields["Args"], code="opt[str]", zeromode="bool", allocate="bool", code_length="int",
+                                    verify="bool", transit_helper="str", listen="bool", relay_url="str")
+    reg.class_fields["DelayedCall"] = {"called": "bool"}
+    reg.boundary_returns["Reactor.callLater"] = "obj[DelayedCall]"
+    reg.boundary_returns["Wormhole.derive_key"] = "bytes"
+    reg.boundary_returns["Wormhole.input_code"] = "obj[InputHelper]"
+    reg.boundary_returns["Transit.get_connection_abilities"] = "json"
+    em = reg.ext_models
+    em["new:TransitReceiver"] = lambda it, klass, args, kw: VObj("Transit", {})
+    for g in ("KEY_TIMER", "VERIFY_TIMER"):
+        em["global:" + RECV + ":" + g] = lambda it: it.fresh("real", "timer")
+    em["global:wormhole/__init__.py:__version__"] = lambda it: it.fresh("str", "version")
+    for e in ("RespondError", "TransferRejectedError"):
+        em[f"attr:{e}.response"] = lambda it, o: it.fresh("str", "response")
+
+    def handle_welcome(it, args, kwargs, fr):
+        if it.ctx.choose([z3.BoolVal(True), z3.BoolVal(True)], "handle_welcome") == 1:
+            it.raise_("WelcomeError", VStr("server says no"))
+        return NONE
+
+    reg.func_models["wormhole/cli/welcome.py:handle_welcome"] = handle_welcome
+    reg.func_models["wormhole/_rlcompleter.py:input_with_completion"] = \
+        lambda it, args, kwargs, fr: deferred.make_deferred("input_with_completion")
+
+    def fires_with(ty, label, *errors):
+        def h(it, d, fr):
+            if errors:
+                k = it.ctx.choose([z3.BoolVal(True)] * (1 + len(errors)), label)
+                if k > 0:
+                    it.raise_(errors[k - 1])
+            return it.fresh(ty, label) if ty else NONE
+        return h
+
+    for meth, ty, errs in (("get_welcome", "json", ("WormholeError",)), ("get_code", "str", ("WormholeError",)),
+                           ("get_unverified_key", "bytes", ("WormholeError",)),
+                           ("get_verifier", "bytes", ("WrongPasswordError", "WormholeError")),
+                           ("get_message", "bytes", ("WrongPasswordError", "WormholeError"))):
+        reg.boundary["Wormhole." + meth] = deferred.producing("Wormhole." + meth)
+        reg.deferred_results["Wormhole." + meth] = fires_with(ty, meth, *errs)
+    reg.boundary["Transit.get_connection_hints"] = deferred.producing("Transit.get_connection_hints")
+    reg.deferred_results["Transit.get_connection_hints"] = fires_with("json", "hints")
+    reg.deferred_results["input_with_completion"] = fires_with("bool", "used_completion", "WormholeError")
+    for e in ("WrongPasswordError", "WormholeError", "WelcomeError"):
+        reg.exc_bases.setdefault(e, "Exception")
+    for c in RG_CONTRACTS:
+        reg.contracts[c.target] = c
+    # applied at a call site a contract contributes its `ensures` only (see regf_go)
+    for k, c in list(reg.contracts.items()):
+        if c.ensures_raise:
+            c2 = copy.copy(c)
+            c2.ensures_raise = {}
+            reg.contracts[k] = c2
+    return reg
+
+
 def regf_r():
     reg = c05.regf(modular=True)
     install_rs(reg)
@@ -1008,6 +1118,7 @@ def tasks():
         inl = c.target.endswith(("connectConsumer", "recordReceived"))
         out.append(ContractTask(c, regf_p_all if c.target.endswith("writeToFile") else regf_p_w2c if inl else regf_p))
     out += [ContractTask(c, regf_r_text if c.target.endswith("Receiver._handle_text") else regf_r) for c in R_CONTRACTS]
+    out += [ContractTask(c, regf_rg) for c in RG_CONTRACTS]
     out += [ContractTask(c, regf_o) for c in O_CONTRACTS]
     out += [ContractTask(c, regf_s) for c in S_CONTRACTS]
     out += [ContractTask(c, regf_go) for c in G_CONTRACTS]
@@ -1023,7 +1134,7 @@ def tasks():
     return out
 
 
-CONTRACTS = P_CONTRACTS + R_CONTRACTS + O_CONTRACTS + S_CONTRACTS + G_CONTRACTS
+CONTRACTS = P_CONTRACTS + R_CONTRACTS + RG_CONTRACTS + O_CONTRACTS + S_CONTRACTS + G_CONTRACTS
 TRUSTED = [
     "z3/cvc5", "pyvc semantics of the Python subset (DESIGN 2.2)",
     "inlineCallbacks (props/deferred.py): a generator is resumed exactly once per fired Deferred with its result, or the "
@@ -1046,6 +1157,13 @@ TRUSTED = [
     "file objects: f.write(b) appends b to the ghost content f._written; RecordPipe.write(b) appends to pipe._written (ghost)",
     "assert statements are executed (no python -O): `assert received == self.xfersize` is what rejects surplus bytes",
     "the C05 contracts of Receiver._handle_file/_handle_directory/_write_file/_write_directory (verified by ./check C05)",
+    "Receiver._go and its helpers (regf_rg): deferred-result contracts w.get_welcome/get_code/get_unverified_key/get_verifier/"
+    "get_message fire with some value of the documented type or fail (WormholeError, WrongPasswordError); "
+    "input_with_completion fires with some bool; TransitReceiver(...) is a boundary object; handle_welcome returns or raises "
+    "WelcomeError; KEY_TIMER/VERIFY_TIMER/__version__ are some float/float/str; RespondError.response is some str (also for TransferRejectedError); "
+    "reactor.callLater returns a DelayedCall with a bool `called`",
+    "a contract applied at a call site contributes its `ensures` only: trace clauses of the callee (ensures_raise) are proved "
+    "on the callee and are not assumed of the caller's trace (regf_go / regf_rg strip them from the applied copies)",
     "print() in Receiver._handle_text is a recorded boundary call (elsewhere it is dropped syntax); repr(v) is an uninterpreted "
     "function of the value (what Python escapes is not modelled, only that the text shown is repr(message)[1:-1])",
     "Sender._build_offer: POSIX path model of C05 (join by definition, basename axioms) plus uninterpreted os.path.normpath / "
@@ -1071,7 +1189,8 @@ ASSUMPTIONS = [
     "state merging: path enumeration alone did not finish in 10 minutes); Sender._check_verifier is under contract",
     "not under contract: numfiles / numbytes of a directory offer (the comprehension over zs.info_list() and sum() of a symbolic "
     "list are outside the engine's subset: both values are arbitrary here; the receiver uses them for its free-space message "
-    "only); Receiver._go / go / _get_data / _handle_code / _build_transit / _parse_transit / _send_permission",
+    "only); Receiver.go and Sender.go (the close-and-return wrappers around _go: closures handed to addCallbacks), "
+    "Receiver._send_permission / _show_verifier / _msg on their own (inlined into their callers)",
     "a JSON float xfersize equal to the integer byte count is treated by the engine as unequal (the real code succeeds "
     "there; the claims are unaffected)",
     "negative `expected`: connectConsumer then fires on the first record; the receiver's assert rejects it",
